@@ -49,7 +49,12 @@ func compile(src string, vars ...string) *gojq.Code {
 }
 
 // run1 returns the single output of the query (an error value when it fails or yields != 1 outputs)
-func run1(c *gojq.Code, in any, vals ...any) any {
+func run1(c *gojq.Code, in any, vals ...any) (res any) {
+	defer func() {
+		if r := recover(); r != nil {
+			res = fmt.Errorf("panic: %v", r)
+		}
+	}()
 	it := c.Run(clone(in), vals...)
 	v, ok := it.Next()
 	if !ok {
@@ -128,22 +133,36 @@ func bigToF(b *big.Int) float64 {
 	return f
 }
 
-// deepEq is jq's equality, written independently of gojq.Compare: two exact integers are equal when
-// they are the same integer; as soon as one side is a double both are compared as doubles.
+// floatExactInt returns the exact integer value of an integral finite double
+func floatExactInt(f float64) (*big.Int, bool) {
+	if math.IsNaN(f) || math.IsInf(f, 0) || f != math.Trunc(f) {
+		return nil, false
+	}
+	b, _ := new(big.Float).SetFloat64(f).Int(nil)
+	return b, true
+}
+
+// deepEq(out, in): does the result [out] return the input [in] EXACTLY?  Written on the Go side, never
+// through gojq's Compare / ==.  Numbers: when the input is an exact integer (int, *big.Int, integer
+// literal) the result must denote exactly that integer (a double is accepted only if its exact value is
+// that integer); when the input is a double the result must denote that same double (an exact integer
+// result is accepted only if its nearest double is the input: tostring prints the shortest digits that
+// round-trip, which need not be the double's exact decimal expansion).
 func deepEq(a, b any) bool {
-	if ai, af, ok := numVal(a); ok {
-		bi, bf, ok := numVal(b)
+	if bi, bf, ok := numVal(b); ok {
+		ai, af, ok := numVal(a)
 		if !ok {
 			return false
 		}
-		if ai != nil && bi != nil {
-			return ai.Cmp(bi) == 0
+		if bi != nil { // integer input: exact
+			if ai != nil {
+				return ai.Cmp(bi) == 0
+			}
+			x, ok := floatExactInt(af)
+			return ok && x.Cmp(bi) == 0
 		}
 		if ai != nil {
 			af = bigToF(ai)
-		}
-		if bi != nil {
-			bf = bigToF(bi)
 		}
 		return af == bf
 	}
@@ -765,15 +784,20 @@ func parseSexpVal(s string) (any, error) {
 }
 
 type lawRunner struct {
-	c     *Ctx
-	r     *Rng
-	nfail int
-	evals int
+	c      *Ctx
+	r      *Rng
+	nfail  int
+	evals  int
+	perLaw map[string]int
 }
 
+// at most 6 failing inputs are recorded per law, so that one broken law does not hide another
 func (l *lawRunner) report(name string, v any, arg any, detail string) {
 	l.nfail++
-	if l.nfail <= 40 {
+	if l.perLaw == nil {
+		l.perLaw = map[string]int{}
+	}
+	if l.perLaw[name]++; l.perLaw[name] <= 6 {
 		l.c.Violation("%s :: %s", lawCase(name, v, arg), detail)
 	}
 }
@@ -915,6 +939,19 @@ func (l *lawRunner) num(n any) {
 	l.ident("tojson|fromjson", "tojson|fromjson", n)
 }
 
+var notNumbers = []string{"nan", "NaN", "0x10", "1_0", " 1", "1 ", "inf", "Infinity", "-Infinity", "0x1p-2", "1e", "1e+", "--1", "-", "",
+	"0b1", "1,5", "١", "1.2.3", "1e5e5", "true", "null", "0x", "1__0", "\t1", "1\n"}
+
+// tonumber on a text that is not a number literal is an error (never a number)
+func (l *lawRunner) notNumber(t string) {
+	l.evals++
+	l.c.Count("tonumber-rejects")
+	out := run1(compile("tonumber"), t)
+	if _, isErr := out.(error); !isErr {
+		l.report("tonumber rejects non-number text", t, nil, "got "+rs(out))
+	}
+}
+
 func (l *lawRunner) seconds(t int) {
 	if t < year1 || t > year9999end {
 		return
@@ -1039,11 +1076,50 @@ func runLaws(c *Ctx) {
 		p := new(big.Int).Lsh(big.NewInt(1), uint(k))
 		nums = append(nums, new(big.Int).Add(p, big.NewInt(1)), new(big.Int).Neg(p), new(big.Int).Sub(p, big.NewInt(1)))
 	}
+	// integers around the representation boundaries ±2^53, ±2^63, ±2^64 and the powers of ten 10^19..10^40,
+	// in every Go representation an integer can arrive in (int, *big.Int, integral float64)
+	for _, k := range []uint{53, 62, 63, 64, 65, 100} {
+		p := new(big.Int).Lsh(big.NewInt(1), k)
+		for d := int64(-2); d <= 2; d++ {
+			x := new(big.Int).Add(p, big.NewInt(d))
+			nums = append(nums, x, new(big.Int).Neg(x))
+		}
+		f, _ := new(big.Float).SetInt(p).Float64()
+		nums = append(nums, f, -f, math.Nextafter(f, math.Inf(1)), math.Nextafter(f, 0))
+	}
+	for e := 15; e <= 40; e++ {
+		p := new(big.Int).Exp(big.NewInt(10), big.NewInt(int64(e)), nil)
+		for d := int64(-1); d <= 1; d++ {
+			x := new(big.Int).Add(p, big.NewInt(d))
+			nums = append(nums, x, new(big.Int).Neg(x))
+		}
+		f, _ := new(big.Float).SetInt(p).Float64()
+		nums = append(nums, f, -f)
+	}
+	// doubles that print in exponent form or with many digits
+	nums = append(nums, 1e21, 1.5e21, 1e100, -1e100, 1.5e300, 1.2345678901234567e25, 1e-7, 1.5e-10, 2.5e-300, 4.9406564584124654e-324,
+		123456789012345680000.0, 0.000001234, 1e-5, 9.999999999999999e22, 1e23, 8.98846567431158e307)
 	for i := 0; i < nrand; i++ {
 		nums = append(nums, math.Float64frombits(r.Next()), int(int64(r.Next())), float64(int64(r.Next()))/1024)
+		// random 17..45-digit integers
+		nd := 17 + r.Intn(29)
+		var sb strings.Builder
+		sb.WriteByte(byte('1' + r.Intn(9)))
+		for j := 1; j < nd; j++ {
+			sb.WriteByte(byte('0' + r.Intn(10)))
+		}
+		x, _ := new(big.Int).SetString(sb.String(), 10)
+		if r.Chance(1, 2) {
+			x.Neg(x)
+		}
+		nums = append(nums, x)
 	}
 	for _, n := range nums {
 		l.num(n)
+	}
+	// tonumber accepts number texts only: these are not JSON / jq number literals
+	for _, t := range notNumbers {
+		l.notNumber(t)
 	}
 	// whole seconds within years 1..9999
 	for _, t := range secondsCases(r, nrand) {
